@@ -21,7 +21,7 @@ ID = "C04"
 LEVEL = "exploration"
 BATCH = 1
 TIMEOUT = 3000
-REQUIRED_OBS = ["element_sums_checked", "charge_sums_checked", "helper_values_checked", "backend_dense", "backend_sparse", "tag_spelling_upper_replace",
+REQUIRED_OBS = ["element_sums_checked", "charge_sums_checked", "helper_values_checked", "backend_dense", "backend_sparse", "tag_spelling_upper_replace", "tag_G_prefix_file", "tag_grain_charge_states",
                 "tag_mixed_electron_spelling", "tag_ice_species", "tag_labelled_species"]
 RULE = ("networks balanced by construction (ions, electrons spelt e-/E-/E/e, ortho/para labels, D isotopologues, ice species "
         "with gas counterparts under '#' and 'G' prefixes, entry via API or merged files with different spellings) x injected "
@@ -71,6 +71,42 @@ def add_grain_charging(rng, net):
         net["reactions"].append({"reactants": res, "products": prs, "pseudo": None, "idx": len(net["reactions"]) + 1})
     used = {n for r in net["reactions"] for n in r["reactants"] + r["products"]}
     net["species"] = [by[n] for n in sorted(used)]
+
+
+def make_mixed_prefix_case(rng):
+    """Stratum: the same ice species spelled '#X' in one file and 'GX' in a Leeds file of the same network (plus the electron under two
+    spellings): both spellings are one species, so its freeze-out and desorption terms must cancel in the conservation sums."""
+    for _ in range(50):
+        net = chem.balanced_network(rng, rng.randint(4, 8), rng.randint(2, 8), electron="e-", surface=True, labels=False)
+        cand = [s for s in net["species"] if not s["surface"] and not s["electron"] and s["charge"] == 0 and len(s["name"]) <= 7 and not s["label"]]
+        if not cand or not net["reactions"]:
+            continue
+        g = rng.choice(cand)
+        ice = chem.make_species(chem._parts_of(g), surface=True)
+        by = {s["name"]: s for s in net["species"]}
+        by.setdefault(ice["name"], ice)
+        n0 = len(net["reactions"])
+        net["reactions"].append({"reactants": [g["name"]], "products": [ice["name"]], "pseudo": None, "idx": n0 + 1})
+        net["reactions"].append({"reactants": [ice["name"]], "products": [g["name"]], "pseudo": None, "idx": n0 + 2})
+        used = {n for r in net["reactions"] for n in r["reactants"] + r["products"]}
+        net["species"] = [by[n] for n in sorted(used)]
+        reacs = net["reactions"]
+        head = [f for f in ("kida", "umist", "naunet") if all(encode.fits(f, reacs[i]) for i in range(n0 + 1))]
+        if not head or not encode.fits("leeds", dict(reacs[-1], reactants=["G" + ice["name"][1:]])):
+            continue
+        case = {"net": net, "entry": "files", "indexed": True, "stratum": "mixed_prefix",
+                "chunks": [{"format": rng.choice(head), "reactions": list(range(n0 + 1)), "electron": rng.choice(SPELL)},
+                           {"format": "leeds", "reactions": [n0 + 1], "electron": rng.choice(SPELL)}]}
+        case["alphas"] = [round(a, 2) for a in chem.distinct_alphas(rng, len(reacs))]
+        names = [s["name"] for s in net["species"]]
+        case["ys"] = []
+        for _ in range(2):
+            yv = {n: 10 ** rng.uniform(-6, 6) for n in names}
+            yv["__TGAS__"] = 1e4
+            case["ys"].append(yv)
+        case["ks"] = [[rng.choice([-1, 1]) * 10 ** rng.uniform(-30, 30) for _ in range(len(reacs))] for _ in range(3)]
+        return case
+    return None
 
 
 def make_case(rng, tier):
@@ -131,6 +167,10 @@ def gen_cases(tier):
     rng = common.rng_for(ID)
     n = 40 if tier == "quick" else 600
     cases = [make_case(random.Random(rng.getrandbits(64)), tier) for _ in range(n)]
+    for _ in range(4 if tier == "quick" else 40):
+        c = make_mixed_prefix_case(random.Random(rng.getrandbits(64)))
+        if c:
+            cases.append(c)
     # bundled real-world networks: the expected element / charge drift is computed per reaction from /verif's own compositions
     # (zero for every balanced reaction), so unbalanced reactions of a database network do not raise false alarms
     r = random.Random(rng.getrandbits(64))
